@@ -918,6 +918,8 @@ def pde_case(case):
             c["k"] = K_CONST
         if "f*" in alltxt:
             c["f"] = ScalarField(grid, fdata.copy())
+        if c:  # an unused constant given FIRST: the insertion order then differs from every sorted order of the names
+            c = {"zz": 3.5, **c}
         return c
 
     def build():
